@@ -198,7 +198,7 @@ def _builder_graph(ctx, fname):
     R = ctx.R
     F = R.builder_f(fname)
     G = guards(ctx)
-    stop = set(G.all) | {G.replay}
+    stop = G.opaque
 
     def inline(g):
         return g.cls == R.builder and not g.is_public and g not in stop
